@@ -87,6 +87,40 @@ fn eval(case_id: &str, h: &History, classes: &[&str], rep: &mut Report, args: &A
             rep.add("all_ok_outputs_checked", 1);
         }
     }
+    // "Any sequence of muxer calls" includes the calls made AFTER a call has failed because the
+    // sink failed: one history in three is executed once more on a sink that returns an error
+    // at one pseudo-randomly chosen write or seek; the remaining calls are made regardless
+    // (that is what a caller that logs the error and goes on does). Whatever they return,
+    // none may panic. What the output is worth after a sink error is not this property's
+    // business.
+    if !failed && hash_str(case_id) % 3 == 0 {
+        let total_ops = {
+            // the number of stream calls of the fault-free run is not recorded by `execute`;
+            // a second fault-free run on a counting sink gives it
+            let ctl = crate::streams::Ctl::new();
+            let _ = run_history(h, crate::streams::MonWriter::new(ctl.clone()), |_, _, _, _| {});
+            ctl.ops.get()
+        };
+        if total_ops > 0 {
+            let k = (hash_str(case_id) >> 8) % total_ops;
+            let ctl = crate::streams::Ctl::new();
+            ctl.fault_kind.set(crate::streams::FaultKind::Error);
+            ctl.fault_at.set(Some(k));
+            let run = run_history(h, crate::streams::MonWriter::new(ctl.clone()), |_, _, _, _| {});
+            rep.add("histories_continued_after_a_sink_error", 1);
+            if let CallRes::Panic(p) = &run.start {
+                rep.fail("C17", case_id, "panic_after_sink_error", json!({"call": "write_start", "fault_at_stream_call": k, "site": p.site(), "msg": p.msg, "history": h.to_json()}));
+            }
+            for (i, c) in run.calls.iter().enumerate() {
+                if let CallRes::Panic(p) = c {
+                    rep.fail("C17", case_id, "panic_after_sink_error", json!({"op": i, "fault_at_stream_call": k, "of": total_ops, "site": p.site(), "msg": p.msg,
+                        "results_before": run.calls.iter().take(i).map(|c| c.tag()).collect::<Vec<_>>(), "history": h.to_json()}));
+                    break;
+                }
+            }
+            rep.cover_nt(hash_str(&format!("sink_error|{}", run.calls.iter().filter(|c| !c.is_ok()).count().min(3))));
+        }
+    }
     if rep.want_sample() && args.shard == 0 && !classes.is_empty() {
         rep.sample(json!({"case": case_id, "classes": classes, "history": h.short(), "outcomes": outcomes.iter().take(12).collect::<Vec<_>>()}));
     }
